@@ -68,20 +68,13 @@ func NewSolver(kind SolverKind, timeoutMs int) (*Solver, error) {
 func (s *Solver) preamble() {
 	if s.kind == SolverZ3 || s.kind == SolverZ3New {
 		s.Send("(set-option :produce-models true)")
-		s.Send(fmt.Sprintf("(set-option :timeout %d)", s.timeout))
 	} else {
 		s.Send("(set-logic ALL)")
 	}
 }
 
 func (s *Solver) SetTimeout(ms int) {
-	if ms == s.timeout {
-		return
-	}
 	s.timeout = ms
-	if s.kind == SolverZ3 || s.kind == SolverZ3New {
-		s.Send(fmt.Sprintf("(set-option :timeout %d)", ms))
-	}
 }
 
 func (s *Solver) Send(line string) {
@@ -109,9 +102,31 @@ func (s *Solver) Close() {
 	}
 }
 
+// Restart kills the process and starts a fresh one (used after a solver-side error left the
+// incremental state unreliable).
+func (s *Solver) Restart() error {
+	s.in.Close()
+	s.cmd.Process.Kill()
+	s.cmd.Wait()
+	n, err := NewSolver(s.kind, s.timeout)
+	if err != nil {
+		s.dead = true
+		return err
+	}
+	n.log, n.Queries, n.Time = s.log, s.Queries, s.Time
+	*s = *n
+	return nil
+}
+
 // CheckSat issues (check-sat) and returns "sat", "unsat" or "unknown".
 func (s *Solver) CheckSat() string {
 	t0 := time.Now()
+	if s.kind == SolverZ3 || s.kind == SolverZ3New {
+		// the time limit is armed for the check only: a limit left armed can cancel a later push/assert
+		// under load ("push canceled"), which desynchronises the incremental state
+		s.Send(fmt.Sprintf("(set-option :timeout %d)", s.timeout))
+		defer s.Send("(set-option :timeout 4294967295)")
+	}
 	s.Send("(check-sat)")
 	s.Queries++
 	for {
